@@ -108,8 +108,18 @@ pub fn exec(sim: &mut Sim, ev: &str, a: &Value) -> Result<(), String> {
                 return Err("Authorize not enabled".into());
             }
         }
-        "Stop" => sim.stop(),
-        "Start" => sim.start(),
+        "Stop" => {
+            if !sim.server.world().resource::<bevy_replicon::prelude::RepliconServer>().is_running() {
+                return Err("Stop not enabled".into());
+            }
+            sim.stop()
+        }
+        "Start" => {
+            if sim.server.world().resource::<bevy_replicon::prelude::RepliconServer>().is_running() {
+                return Err("Start not enabled".into());
+            }
+            sim.start()
+        }
         "Prespawn" => sim.prespawn(s(a, "c"), s(a, "p")),
         "KillPre" => sim.kill_prespawned(s(a, "c"), s(a, "p")),
         "MapPre" => {
@@ -338,11 +348,32 @@ pub fn random_run<W: Write>(tr: &mut Trace<W>, cfg: Cfg, prof: &Profile, seed: u
             85..=92 => ("CliFrame", json!({"c": c, "dt": 0})),
             93..=96 => ("DeliverAck", json!({"c": c})),
             97..=98 if prof.sess => {
+                if rng.chance(1, 4) {
+                    // server restart: everything of the old run is gone; clients join the new one
+                    tr.step(&mut sim, "Stop", json!({}));
+                    for c in &clients {
+                        tr.step(&mut sim, "CliFrame", json!({"c": c, "dt": 0}));
+                    }
+                    tr.step(&mut sim, "SrvFrame", json!({"tick": false, "dt": 0}));
+                    if rng.chance(1, 2) {
+                        let e = rng.pick(&ents).clone();
+                        tr.step(&mut sim, "Despawn", json!({"e": e}));
+                        tr.step(&mut sim, "SrvFrame", json!({"tick": rng.chance(1, 2), "dt": 0}));
+                    }
+                    tr.step(&mut sim, "Start", json!({}));
+                    tr.step(&mut sim, "SrvFrame", json!({"tick": false, "dt": 0}));
+                    for c in &clients {
+                        tr.step(&mut sim, "Connect", json!({"c": c}));
+                    }
+                    continue;
+                }
                 let ci = sim.ci(&c);
                 if sim.clients[ci].entity.is_some() {
                     tr.step(&mut sim, "Disconnect", json!({"c": c}));
                     tr.step(&mut sim, "CliFrame", json!({"c": c, "dt": 0}));
-                    tr.step(&mut sim, "SrvFrame", json!({"tick": false, "dt": 0}));
+                    if rng.chance(1, 2) {
+                        tr.step(&mut sim, "SrvFrame", json!({"tick": rng.chance(1, 2), "dt": 0}));
+                    }
                 }
                 ("Connect", json!({"c": c}))
             }
